@@ -18,7 +18,7 @@ pub fn n_sm2() -> BigUint {
 
 /// Uniform-candidate script: `k` explicit candidates followed by a seeded filler.
 pub fn uniform_script(p: &mut Prng, k: usize) -> RngScript {
-    RngScript { cands: (0..k).map(|_| p.bytes32()).collect(), filler: p.next_u64() }
+    RngScript { cands: (0..k).map(|_| p.bytes32()).collect(), filler: p.next_u64(), real: false }
 }
 
 pub fn be32(x: &BigUint) -> [u8; 32] {
